@@ -354,6 +354,28 @@ func ruleHostsNormalised(c *Ctx, rule string) {
 			}
 			return len(x.Edges) > 0
 		case *ssa.Call:
+			// the text of a strings.Builder into which only lower-cased text and verbatim {...} parts (slices that
+			// begin at the position of a '{') were written
+			if an.CalleeName(&x.Call) == "strings.(*Builder).String" {
+				lowered, verbatimOK := 0, true
+				an.AllInstrs(x.Parent(), func(w ssa.Instruction) {
+					wc := an.CallOf(w)
+					if wc == nil {
+						return
+					}
+					switch an.CalleeName(wc) {
+					case "strings.(*Builder).WriteString":
+						if lc, isCall := wc.Args[1].(*ssa.Call); isCall && an.CalleeName(&lc.Call) == "strings.ToLower" {
+							lowered++
+						} else if sl, isSl := wc.Args[1].(*ssa.Slice); !isSl || sl.Low == nil || !braceIndexCall(sl.Low, nil) {
+							verbatimOK = false
+						}
+					case "strings.(*Builder).WriteByte", "strings.(*Builder).WriteRune", "strings.(*Builder).Write":
+						verbatimOK = false
+					}
+				})
+				return lowered > 0 && verbatimOK
+			}
 			// a helper of the module that lower-cases what it returns, on every path
 			if g := an.StaticCallee(&x.Call); g != nil && an.InModule(g) && len(g.Blocks) > 0 {
 				rets := an.Returns(g)
@@ -469,9 +491,9 @@ func ruleHostsGuards(c *Ctx, rule string) {
 					})
 				})
 				if !dom {
-				dom = cutBehindDigitLoop(sl)
-			}
-			c.R.Add(rule, c.fk(f), "cut:port/behind:validOptionalPort(rest)", c.pos(in), dom, ifelse(dom, "the cut happens only when the text after the last ':' is a valid port", "the host is cut at ':' without validating that the rest is a port (an IPv6 literal loses its last group)"))
+					dom = cutBehindDigitLoop(sl)
+				}
+				c.R.Add(rule, c.fk(f), "cut:port/behind:validOptionalPort(rest)", c.pos(in), dom, ifelse(dom, "the cut happens only when the text after the last ':' is a valid port", "the host is cut at ':' without validating that the rest is a port (an IPv6 literal loses its last group)"))
 			case sl.Low != nil && sl.High != nil:
 				if k, isC := sl.Low.(*ssa.Const); isC && k.Value != nil && k.Int64() == 1 {
 					has := func(fn, lit string) bool {
@@ -1095,7 +1117,6 @@ func sliceAlts(v ssa.Value, env map[*ssa.Parameter][]int, depth int) []int {
 	return []int{0}
 }
 
-
 // sameRecvType: both are methods of the same (possibly generic) named type.
 func sameRecvType(f, g *ssa.Function) bool {
 	named := func(h *ssa.Function) *types.Named {
@@ -1115,7 +1136,6 @@ func sameRecvType(f, g *ssa.Function) bool {
 	a, b := named(f), named(g)
 	return a != nil && a == b
 }
-
 
 // returnsRouterByName: a lookup of the group's routers by name — every non-nil result is an element of the
 // receiver's router list.
@@ -1142,7 +1162,6 @@ func returnsRouterByName(g *ssa.Function) bool {
 	}
 	return n > 0
 }
-
 
 // cutBehindDigitLoop: the cut `x[:i]` is reachable only after a loop over the text behind position i completed, and
 // that loop leaves (without reaching the cut) on any byte outside '0'..'9' — the port validation written in line.
